@@ -12,7 +12,7 @@ META = {
     },
     "outside": "inputs neither within N nor an instance of an explored shape; warn-mode behaviour after the first "
                "warning (C08)",
-    "wall_budget_s": {"quick": 270, "thorough": 1500},
+    "wall_budget_s": {"quick": 270, "thorough": 840},
 }
 
 
